@@ -278,6 +278,7 @@ def cases(ctx):
     yield from rdtype_cases(ctx)
     yield from b32_cases(ctx)
     yield from sigtime_cases(ctx)
+    yield from svcb_cases(ctx)
     # --- the regular record types through the schema model
     yield from schema_cases(ctx)
     # --- whole records (oracle only)
@@ -699,6 +700,181 @@ def rdtype_cases(ctx):
         yield "rdtype-from-text", [57, enc(mutate_ascii(rng, rng.choice(names).encode()).decode("latin-1"))]
 
 
+# ------------------------------------------------------------------ SVCB / HTTPS (ops 44 / 45)
+SVCB_KNOWN = {0, 1, 2, 3, 4, 5, 6, 8, 10}
+
+
+def gen_svcb_params(rng):
+    """[[key, kind, payload], ...] sorted by key; kinds: 0 none, 1 keys, 2 strings, 3 port, 4/6 addresses, 5 ech, 7 generic"""
+    P = {}
+
+    def ids():
+        out = []
+        for _ in range(rng.randint(1, 3)):
+            r = rng.random()
+            if r < 0.5:
+                out.append(rng.choice([b"h2", b"h3", b"http/1.1", b"dot", b"x"]))
+            else:
+                out.append(bytes(rng.choice([44, 92, 34, 0, 32, 59, 200, 255, 97, 48, 61]) for _ in range(rng.randint(1, 6))))
+        return out
+    if rng.random() < 0.6:
+        P[1] = [2, ids()]
+        if rng.random() < 0.3:
+            P[2] = [0, 0]
+    if rng.random() < 0.5:
+        P[3] = [3, rng.choice([0, 53, 443, 8443, 65535, rng.randrange(65536)])]
+    if rng.random() < 0.4:
+        P[4] = [4, [gen_field(rng, "a4") for _ in range(rng.randint(1, 3))]]
+    if rng.random() < 0.3:
+        P[5] = [5, gen_bytes(rng, 30) or b"\x00"]
+    if rng.random() < 0.4:
+        P[6] = [6, [gen_v6(rng) for _ in range(rng.randint(1, 2))]]
+    if rng.random() < 0.2:
+        P[7] = [7, gen_bytes(rng, 12) or b"/"]
+    if rng.random() < 0.15:
+        P[8] = [0, 0]
+    if rng.random() < 0.2:
+        P[10] = [2, ids()] if rng.random() < 0.8 else [0, 0]
+    for k in rng.sample([9, 11, 12, 255, 256, 65000, 65534, 65535], rng.choice([0, 0, 1, 2])):
+        P[k] = [7, gen_bytes(rng, 10)] if rng.random() < 0.8 else [0, 0]
+        if P[k][0] == 7 and not P[k][1]:
+            P[k] = [0, 0]
+    others = [k for k in P if k != 0]
+    if others and rng.random() < 0.3:
+        P[0] = [1, sorted(rng.sample(others, rng.randint(1, min(3, len(others)))))]
+    return [[k] + P[k] for k in sorted(P)]
+
+
+def build_svcb(rdtype, prio, target, params):
+    import dns.rdtypes.svcbbase as S
+    d = {}
+    for k, kind, v in params:
+        if kind == 0:
+            d[k] = None
+        elif kind == 1:
+            d[k] = S.MandatoryParam(v)
+        elif kind == 2:
+            d[k] = (S.ALPNParam if k == 1 else S.DoCPathParam)(v)
+        elif kind == 3:
+            d[k] = S.PortParam(v)
+        elif kind == 4:
+            d[k] = S.IPv4HintParam([dns.ipv4.inet_ntoa(a) for a in v])
+        elif kind == 6:
+            d[k] = S.IPv6HintParam([dns.ipv6.inet_ntoa(a) for a in v])
+        elif kind == 5:
+            d[k] = S.ECHParam(v)
+        else:
+            d[k] = S.GenericParam(v)
+    cls = dns.rdata.get_rdata_class(dns.rdataclass.IN, rdtype)
+    return cls(dns.rdataclass.IN, rdtype, prio, mkname(target), d)
+
+
+def enc_svcb_params(params):
+    import dns.rdtypes.svcbbase as S
+    out = []
+    for k, v in params.items():
+        k = int(k)
+        if v is None:
+            out.append([k, 0, 0])
+        elif isinstance(v, S.MandatoryParam):
+            out.append([k, 1, [int(x) for x in v.keys]])
+        elif isinstance(v, S._StringList):
+            out.append([k, 2, [bytes(x) for x in v.ids]])
+        elif isinstance(v, S.PortParam):
+            out.append([k, 3, int(v.port)])
+        elif isinstance(v, S.IPv4HintParam):
+            out.append([k, 4, [dns.ipv4.inet_aton(a) for a in v.addresses]])
+        elif isinstance(v, S.IPv6HintParam):
+            out.append([k, 6, [dns.ipv6.inet_aton(a) for a in v.addresses]])
+        elif isinstance(v, S.ECHParam):
+            out.append([k, 5, bytes(v.ech)])
+        else:
+            out.append([k, 7, bytes(v.value)])
+    return out
+
+
+SVCB_TEXTS = ["1 . alpn=h2", '1 . alpn="h2,h3"', "1 . alpn=h2,h3 port=443", '1 . ALPN="h2"', "1 . Alpn=h2 no-default-alpn", "1 . no_default_alpn alpn=h2",
+              "1 . no-default-alpn", "1 . no-default-alpn=", '1 . no-default-alpn=""', "1 . no-default-alpn=x alpn=h2", "1 . alpn", "1 . alpn=", '1 . alpn=""',
+              '1 . alpn= "h2"', "1 . =h2", "1 . alpn=h2 alpn=h3", "1 . port=53", 'l . port="53"', "1 . port=65536", "1 . port=-1", "1 . port=+53", "1 . port", "1 . port=",
+              "0 . alpn=h2", "0 .", "0 . ", "0 foo.example.", "16 foo.example. mandatory=alpn,port alpn=h2 port=53", "1 . mandatory=alpn", "1 . mandatory=mandatory alpn=h2",
+              "1 . mandatory=alpn,alpn alpn=h2", "1 . mandatory=port,alpn alpn=h2 port=1", "1 . mandatory=key7 key7=x", "1 . mandatory= alpn=h2", "1 . mandatory",
+              "1 . ipv4hint=1.2.3.4,5.6.7.8", "1 . ipv4hint=1.2.3.4, ", "1 . ipv4hint=1.2.3", "1 . ipv4hint=", "1 . ipv6hint=::1,2001:db8::1", '1 . ipv6hint="::ffff:1.2.3.4"',
+              "1 . ech=AQID", "1 . ech=AQI", '1 . ech="AQ ID"', "1 . ech=A\\QID", "1 . ech=", "1 . ohttp", "1 . ohttp=", "1 . ohttp=x", "1 . dohpath=/dns-query{?dns}", "1 . dohpath",
+              '1 . docpath="a,b\\,c"', "1 . docpath", "1 . docpath=", "1 . key7=abc", "1 . key9", "1 . key9=", "1 . key65535=\\001\\255", "1 . key65536=x", "1 . key09=x", "1 . key0=x",
+              "1 . KEY9=x", "1 . keyx=x", "1 . key=x", "1 . foo=x", "1 . key9=a\\", "1 . key9=a\\0", "1 . key9=a\\00", "1 . key9=a\\0x0", "1 . key9=a\\300", '1 . key9="a b" port=1',
+              '1 . alpn="a\\\\,b"', '1 . alpn="a\\044b"', '1 . alpn="a\\\\044b"', '1 . alpn="a,,b"', '1 . alpn=","', "1 . alpn=\\,", '1 . alpn="' + "x" * 256 + '"',
+              '1 . alpn="' + "x" * 255 + '"', "65535 \\@.example. port=1 ; c", "65536 . port=1", "1 . ( port=1\n alpn=h2 )", '1 . "alpn=h2"', "1 . alpn=h2 ) port=1"]
+
+
+def mutate_svcb(rng, t):
+    r = rng.random()
+    if r < 0.4:
+        return c05lib.mutate_rdtext(rng, t)
+    toks = t.split(" ")
+    i = rng.randrange(len(toks))
+    if r < 0.6:
+        toks[i] = toks[i].replace('"', "", rng.choice([1, 2]))
+    elif r < 0.75:
+        toks[i] = toks[i].upper() if rng.random() < 0.5 else toks[i].replace("-", "_")
+    elif r < 0.9 and len(toks) > 3:
+        j = rng.randrange(2, len(toks))
+        toks.insert(i, toks[j])
+    else:
+        toks[i] = rng.choice(["key9", "ohttp", "no-default-alpn", "port=1", "alpn=h2", "0", "="])
+    return " ".join(toks)
+
+
+def svcb_cases(ctx):
+    rng = ctx.rng
+    for t in SVCB_TEXTS:
+        yield "svcb-from-text", [45, 64, enc(t), [None, 1, None]]
+    for _ in range(ctx.n(60, 3000)):
+        rdtype = rng.choice([64, 65])
+        params = gen_svcb_params(rng)
+        prio = rng.choice([1, 1, 16, 65535, rng.randrange(1, 65536)]) if params or rng.random() < 0.5 else 0
+        target = gen_field(rng, "n") if rng.random() < 0.6 else [b""]
+        sty = gen_style(rng)
+        yield "svcb-to-text", [44, prio, target, params, sty]
+        try:
+            rd = build_svcb(rdtype, prio, target, params)
+            text = rd.to_text(style=style_obj(sty))
+        except Exception:  # noqa
+            continue
+        if rng.random() < 0.5:
+            try:
+                yield "rd-schema-value", [100, int(dns.rdataclass.IN), rdtype, rd.to_wire(), rng.randrange(2)]
+            except Exception:  # noqa  (relative target)
+                pass
+        pc = [sty[0], rng.randrange(2), None] if rng.random() < 0.5 else gen_pctx(rng)
+        yield "svcb-from-text", [45, rdtype, enc(text), pc]
+        yield "svcb-from-text", [45, rdtype, enc(text + rng.choice(["\n", " ; c", " )", "  ", " x", ""])), pc]
+        for _ in range(2):
+            yield "svcb-from-text-mut", [45, rdtype, enc(mutate_svcb(rng, text)), gen_pctx(rng)]
+
+
+def svcb_in_model(text):
+    if any(ord(c) > 127 for c in text):
+        return False
+    try:
+        import dns.rdtypes.svcbbase as S
+        tk = dns.tokenizer.Tokenizer(text)
+        while True:
+            t = tk.get()
+            if t.is_eol_or_eof():
+                break
+            if t.is_identifier():
+                key = t.value.split("=", 1)[0]
+                try:
+                    kb = S._unescape(key).decode("latin-1").lower()
+                except Exception:  # noqa
+                    continue
+                if kb.startswith("key") and kb[3:].isdecimal() and int(kb[3:]) in SVCB_KNOWN and "=" in t.value:
+                    return False     # cls.from_wire_parser of a typed parameter: C02's side
+    except Exception:  # noqa
+        pass
+    return True
+
+
 def sigtime_cases(ctx):
     """RRSIG/SIG times (dns/rdtypes/rrsigbase.py): op 60 posixtime_to_sigtime, op 61 sigtime_to_posixtime"""
     rng = ctx.rng
@@ -801,6 +977,8 @@ def in_model(kind, case):
         return False
     if case[0] == 61 and any(c > 127 for c in (case[1] if isinstance(case[1], (bytes, list)) else b"")):
         return False  # str.isdigit() / int() of non-ASCII text
+    if case[0] == 45:
+        return svcb_in_model(dec(case[2]))
     if case[0] == 57 and any(c > 127 for c in (case[1] if isinstance(case[1], (bytes, list)) else b"")):
         return False  # str.upper() / isdecimal() of non-ASCII text
     if case[0] == 41 and case[1] == 11:
@@ -929,6 +1107,12 @@ def impl(case):
                 return base64.b32decode(nxt)
             except UnicodeEncodeError:
                 return Err(103, "UnicodeEncodeError")
+        if op == 44:
+            return enc(build_svcb(64, case[1], case[2], case[3]).to_text(style=style_obj(case[4])))
+        if op == 45:
+            org, rel, relto = case[3]
+            rd = dns.rdata.from_text(dns.rdataclass.IN, case[1], dec(case[2]), origin=mkname(org), relativize=bool(rel), relativize_to=mkname(relto))
+            return [int(rd.priority), nl.labels_of(rd.target), enc_svcb_params(rd.params)]
         if op == 60:
             import dns.rdtypes.rrsigbase as _rs  # noqa
             return enc(_rs.posixtime_to_sigtime(case[1]))
